@@ -129,8 +129,26 @@ class World:
                 world.rh[0] -= 1
                 world.events.append(('handler-reconnect',))
                 world.conn.connect()          # an exception raised here replaces the handled one
-        self.conn = C.Connection('h', 1, username='u', allowed_versions={757}, handle_exception=on_exc,
-                                 handle_exit=lambda: world.events.append(('exit',)))
+        class IConnection(C.Connection):
+            # the two thread slots are shared state: make every access by a scheduled thread an atomic
+            # action of its own, so the scheduler can interleave around them
+            def _slot(name):
+                def get(self):
+                    if S.me() is not None:
+                        S.before('slot')
+                        S.emit('slot', 'r', name)
+                    return self.__dict__.get('_slot_' + name)
+
+                def set_(self, v):
+                    if S.me() is not None:
+                        S.before('slot')
+                        S.emit('slot', 'w', name)
+                    self.__dict__['_slot_' + name] = v
+                return property(get, set_)
+            networking_thread = _slot('nt')
+            new_networking_thread = _slot('newnt')
+        self.conn = IConnection('h', 1, username='u', allowed_versions={757}, handle_exception=on_exc,
+                                handle_exit=lambda: world.events.append(('exit',)))
 
         def on_pkt(p):
             if world.rl[0] > 0:
@@ -145,7 +163,7 @@ class World:
         class IOLog(list):
             def append(self, ev):
                 list.append(self, ev)
-                if ev[0] in ('send', 'read', 'read-eof', 'connect', 'close', 'shutdown'):
+                if ev[0] in ('send', 'read', 'read-eof', 'connect', 'close', 'shutdown', 'refused'):
                     world_io.append((S.me(), ev[0], ev[1]))
         self.net.log = IOLog(net_log)
 
@@ -157,6 +175,7 @@ class World:
     def api(self, op, outcomes):
         from minecraft.exceptions import InvalidState
         conn = self.conn
+        io_mark = len(self.io)
         try:
             if op == 'c':
                 conn.connect()
@@ -173,6 +192,9 @@ class World:
                 self.events.append(('disconnect-call', len(self.S.log)))
         except InvalidState:
             outcomes.append('invalid')
+            mine = [e for e in self.io[io_mark:] if e[0] == self.S.me() and e[1] in ('connect', 'refused', 'send', 'close')]
+            if op in ('c', 's') and mine:
+                self.events.append(('disturbed', op, mine[:3]))
         except ConnectionRefusedError:
             outcomes.append('refused')
         except Exception as e:
@@ -280,6 +302,11 @@ def oracle(ctx, servers, rl, rh, progs, r, label):
     if r['errors']:
         bad = bad or 'a thread raised: %r' % (r['errors'][:2],)
         key_kind = key_kind or 'thread-raised'
+    dist = [e for e in r['events'] if e[0] == 'disturbed']
+    if dist and not bad:
+        bad = 'a refused %s (InvalidState) nevertheless performed socket operations on behalf of the caller: %r' % (
+            dist[0][1], dist[0][2])
+        key_kind = 'refused-call-disturbs'
     # 4. a connection that was established last, to a server that accepts and stays silent, with no
     #    disconnect call and no reconnect afterwards, must still be up when the system comes to rest
     evs = r['events']
